@@ -23,11 +23,17 @@ def run_tv(ctx, n_tables, max_len=800):
         n = len(c['sig'])
         roles = tt.roles_of(df)
         last, nxt = df[roles[1]].values, df[roles[5]].values
-        fs = [1, 64, 128, 0.5][int(rng.integers(0, 4))]
+        fs = [1, 64, 128, 0.5, 600, 1200, 250, 1000 / 3, 100][int(rng.integers(0, 9))]
+        dyadic_fs = fs in (1, 64, 128, 0.5)
         wins = [(None, None), (None, 2 * int(nxt[len(nxt) // 2])), (2 * int(last[len(last) // 3]), None),
                 (2 * int(last[1]), 2 * int(nxt[-2])), (2 * int(last[1]) + 1, 2 * int(nxt[-2]) - 1),
                 (2 * int(rng.integers(0, n // 2)), 2 * int(rng.integers(n // 2, n))), (2 * int(last[0]) + 2, 2 * int(last[0]) + 4), (0, 0)]
         for a2, b2 in wins:
+            if not dyadic_fs:
+                # sampling rates for which fs * (s / fs) need not equal s: limits are given half a sample off the grid (odd half-sample units), so that
+                # the documented selection does not hinge on the rounding of start * fs; an OMITTED limit must still keep every cycle on that side
+                a2 = None if a2 is None else a2 | 1
+                b2 = None if b2 is None else b2 | 1
             reset = bool(rng.integers(0, 2))
             recs.append(tt.record_limit(df, fs, a2, b2, reset, lab=len(recs) // 2))
             metas.append({'kind': c['kind'], 'labels': pj.LABELLINGS[((len(recs) - 1) // 2) % 4], 'centre': c['opts']['center_extrema'], 'fs': fs, 'a2': a2, 'b2': b2, 'reset': reset, 'cycles': len(df)})
